@@ -113,13 +113,20 @@ func (p *Program) Method(typeName, method string) *ssa.Function {
 	if !ok {
 		return nil
 	}
-	for _, t := range []types.Type{types.NewPointer(tn.Type()), tn.Type()} {
+	var fallback *ssa.Function
+	for _, t := range []types.Type{tn.Type(), types.NewPointer(tn.Type())} {
 		ms := p.Prog.MethodSets.MethodSet(t)
 		if sel := ms.Lookup(p.Types, method); sel != nil {
-			return p.Prog.MethodValue(sel)
+			f := p.Prog.MethodValue(sel)
+			if f != nil && f.Synthetic == "" {
+				return f // the declared method, not a pointer-receiver wrapper
+			}
+			if fallback == nil {
+				fallback = f
+			}
 		}
 	}
-	return nil
+	return fallback
 }
 
 // DeclaredMethod returns the method only when it is declared directly on the
